@@ -340,6 +340,48 @@ def rw_iflet_map(text, nth, fired, fname):
     raise Undecided('lost-anchor', 'iflet_map %d: no such statement in %s' % (nth, fname))
 
 
+def rw_match_map(text, nth, fired, fname):
+    """R17b: the nth expression `EXPR.map(|PAT| BODY)` whose closure captures `&mut` state (value
+    used) becomes `match EXPR { Some(PAT) => Some(BODY), None => None }` — the definition of
+    Option::map.  EXPR starts at the statement/expression start (after `;`, `{`, `}`, `=`, `return`
+    or `else`)."""
+    src = Src(text)
+    cnt = 0
+    for i in range(src.n()):
+        if src.s(i) == '.' and src.s(i + 1) == 'map' and src.s(i + 2) == '(' and src.s(i + 3) == '|':
+            cnt += 1
+            if cnt != nth:
+                continue
+            close = src.match[i + 2]
+            j = i - 1
+            while j >= 0:
+                sj = src.s(j)
+                if sj in rscan.CLOSE:
+                    j = src.match[j] - 1
+                    continue
+                if sj in (';', '{', '}', '=', 'return', 'else', '=>', '(', ','):
+                    break
+                j -= 1
+            start = j + 1
+            pe = i + 4
+            while src.s(pe) != '|':
+                if src.s(pe) in rscan.OPEN: pe = src.match[pe]
+                pe += 1
+            pat = text[src.t(i + 4).pos:src.t(pe - 1).end]
+            body_a = src.t(pe + 1).pos
+            body_b = src.t(close - 1).end
+            body = text[body_a:body_b]
+            expr = text[src.t(start).pos:src.t(i - 1).end]
+            whole_a, whole_b = src.t(start).pos, src.t(close).end
+            head = 'match %s { Some(%s) => Some(' % (expr.replace('\n', ' '), pat.replace('\n', ' '))
+            pre_nl = text[whole_a:body_a].count('\n')
+            post_nl = text[body_b:whole_b].count('\n')
+            new = head + '\n' * pre_nl + body + '), None => None }' + '\n' * post_nl
+            fired.append(('R17', src.line_of(whole_a), 'OPT.map(|x| ..) -> match (definition of Option::map)'))
+            return text[:whole_a] + new + text[whole_b:]
+    raise Undecided('lost-anchor', 'match_map %d: no such expression in %s' % (nth, fname))
+
+
 def closure_starts(src, lo, hi):
     """indices (sig) of the opening '|' or '||' of closures in [lo,hi)"""
     out = []
@@ -664,6 +706,34 @@ def closure_edits(src, text, d, ob, cb, ft):
                    (src.t(e - 1).end, src.t(e - 1).end, ' }')]
 
 
+def rw_mut_self(text, fired, fname):
+    """R20 (added for unit `fragments`, directive `@@mut_self`): a by-value `mut self` receiver
+    (unsupported by Verus) becomes `self`; the body starts with `let mut self_m = self;` and every
+    `self` token of the body is renamed `self_m` — the meaning of a `mut` binding of a by-value
+    parameter.  In contracts `self` is the value passed in."""
+    src = Src(text)
+    fn_si = next(i for i in range(src.n()) if src.s(i) == 'fn')
+    p_open = fn_si + 2
+    if src.s(p_open) == '<':
+        p_open = src.skip_generics(p_open)
+    if not (src.s(p_open) == '(' and src.s(p_open + 1) == 'mut' and src.s(p_open + 2) == 'self'
+            and src.s(p_open + 3) in (',', ')')):
+        raise Undecided('lost-anchor', 'mut_self: %s has no `mut self` receiver' % fname)
+    ob = rscan.find_block_open(src, fn_si)
+    cb = src.match[ob]
+    ed = Edits(text)
+    a, b = src.t(p_open + 1).pos, src.t(p_open + 2).pos
+    ed.replace(a, b, keep_newlines(text[a:b]))
+    ed.insert(src.t(ob).end, ' let mut self_m = self;')
+    for i in range(ob + 1, cb):
+        if src.t(i).kind == 'ident' and src.s(i) == 'self':
+            if src.s(i - 1) in ('&', 'mut') and src.s(i + 1) in (',', ')') and src.s(i - 2) in ('(', '&'):
+                raise Undecided('unsupported-construct', 'mut_self: nested fn with a self receiver in %s' % fname)
+            ed.replace(src.t(i).pos, src.t(i).end, 'self_m')
+    fired.append(('R20', src.line_of(a), 'mut self -> self + let mut self_m = self; self -> self_m in body'))
+    return ed.apply()
+
+
 def splice_function(ft, directives, security=False):
     """returns list of (text_line, origin) for the function with contracts spliced"""
     fired = ft.fired
@@ -694,8 +764,13 @@ def splice_function(ft, directives, security=False):
             si += 1
         text = ed.apply()
     for d in directives:
+        if d.kind == 'match_map':
+            text = rw_match_map(text, int(d.arg.split()[0]) if d.arg.strip() else 1, fired, ft.name)
+    for d in directives:
         if d.kind == 'iflet_map':
             text = rw_iflet_map(text, int(d.arg.split()[0]) if d.arg.strip() else 1, fired, ft.name)
+    if any(d.kind == 'mut_self' for d in directives):
+        text = rw_mut_self(text, fired, ft.name)
     if text.count('\n') != ft.orig.count('\n'):
         raise Undecided('unsupported-construct', 'internal: rewrite changed line count')
 
@@ -813,7 +888,7 @@ def splice_function(ft, directives, security=False):
             # a @@closure that sits inside the for-header expression (e.g. `.filter(|s| ..)`) is
             # annotated in the copied expression text (the header is replaced wholesale below)
             for d2 in directives:
-                if d2.kind == 'closure':
+                if d2.kind == 'closure' and 'pat' not in d2.arg.split()[1:]:   # (`@@closure k pat` = R19, handled below)
                     ci2, k2, eds2 = closure_edits(src, text, d2, ob, cb, ft)
                     if in_si < ci2 < lob:
                         for (ea, eb, enew) in sorted(eds2, reverse=True):
@@ -898,7 +973,21 @@ def splice_function(ft, directives, security=False):
             if ts is None:
                 raise Undecided('lost-anchor', 'no tail expression in %s' % ft.name)
             add(src.t(ts).pos, [(ln, {'o': 'clause', 'label': 'aux.%s.proof' % ft.name}) for ln in d.payload.rstrip().split('\n')], 'bt')
-        elif d.kind in ('after', 'before', 'wrap_stmt'):
+        elif d.kind == 'name_tail':
+            # R21: `{ stmts; TAIL }` -> `{ stmts; let v = TAIL; <proof text> v }`
+            ts = tail_expr_start(src, ob, cb)
+            if ts is None:
+                raise Undecided('lost-anchor', 'no tail expression in %s' % ft.name)
+            v = d.arg.strip() or 'tail_v'
+            ed.insert(src.t(ts).pos, 'let %s = ' % v)
+            add(src.t(cb).pos, [(';', {'o': 'src'})] + [(ln, {'o': 'clause', 'label': 'aux.%s.proof' % ft.name}) for ln in d.payload.rstrip().split('\n')] + [(v, {'o': 'src'})], 'nt', order=-2)
+            fired.append(('R21', src.line_of(src.t(ts).pos), 'tail expression bound to `%s`' % v))
+        elif d.kind in ('after', 'before', 'after_stmt', 'before_stmt', 'after_opt', 'before_opt', 'after_stmt_opt', 'before_stmt_opt'):
+            # token-sequence anchors.  *_stmt: the payload goes after/before the whole enclosing
+            # statement.  *_opt: if the tokens are absent the hint is skipped (it concerned code that
+            # is not there); the obligations themselves are unaffected.
+            optional = d.kind.endswith('_opt')
+            kind = d.kind[:-4] if optional else d.kind
             try:
                 parts = shlex.split(d.arg)
             except ValueError as e:
@@ -907,12 +996,44 @@ def splice_function(ft, directives, security=False):
             nth = int(parts[1]) if len(parts) > 1 else 1
             hit = find_token_seq(src, ob + 1, cb, needle, nth)
             if hit is None:
+                if optional:
+                    fired.append(('note', 0, 'optional hint anchor %r absent: hint skipped' % needle))
+                    continue
                 raise Undecided('lost-anchor', 'anchor %r #%d not found in %s' % (needle, nth, ft.name))
             lines = [(ln, {'o': 'clause', 'label': 'aux.%s.proof' % ft.name}) for ln in d.payload.rstrip().split('\n')]
-            if d.kind == 'after':
+            if kind == 'after':
                 add(src.t(hit[1]).end, lines, 'aft', order=2)
-            else:
+            elif kind == 'before':
                 add(src.t(hit[0]).pos, lines, 'bef', order=-3)
+            elif kind == 'after_stmt':
+                j = hit[1]
+                # forward to the ';' that ends the enclosing statement (same bracket depth as hit start)
+                k = hit[0]
+                while k < cb:
+                    sk = src.s(k)
+                    if sk in rscan.OPEN:
+                        k = src.match[k] + 1
+                        continue
+                    if sk == ';':
+                        break
+                    if sk in rscan.CLOSE:
+                        k -= 1
+                        break
+                    k += 1
+                add(src.t(k).end, lines, 'afts', order=2)
+            else:
+                k = hit[0] - 1
+                while k > ob:
+                    sk = src.s(k)
+                    if sk in rscan.CLOSE:
+                        if sk == '}':
+                            break
+                        k = src.match[k] - 1
+                        continue
+                    if sk in (';', '{'):
+                        break
+                    k -= 1
+                add(src.t(k + 1).pos, lines, 'befs', order=-3)
         elif d.kind == 'type_local':
             # R13  `x: T`
             nm, ty = d.arg.split(':', 1)
